@@ -276,12 +276,27 @@ def _glue(ctx, prog, cc, ib):
     for name in ('new', 'from_degrees', 'update_range'):
         b = util.find_one(ctx, suffix='constraints::Constraints::' + name)
         calls = [(bi, t) for bi, t in b.calls() if t['callee'].get('resolved') == cc.path]
-        if not ctx.check(len(calls) == 1, 'R07.3', name + '/centres', b.where(0), b.path, 'must compute centres/tolerances exactly once'):
+        delegated = None
+        if not calls and name != 'new':
+            # a constructor may hand its (from, to) to `new`, which is checked above
+            ret = strip(b.return_term())
+            newb = util.find_one(ctx, suffix='constraints::Constraints::new')
+            if isinstance(ret, tuple) and ret[0] == 'call' and ret[1] == newb.path:
+                delegated = ret
+        if delegated is not None:
+            ctx.ok('R07.3', name + '/centres', b.where(0), 'delegates to Constraints::new')
+            ctx.ok('R07.3', name + '/stores', b.where(0), 'delegates to Constraints::new')
+            fa, ta = strip(delegated[2]), strip(delegated[3])
+            bi = 0
+        elif not ctx.check(len(calls) == 1, 'R07.3', name + '/centres', b.where(0), b.path, 'must compute centres/tolerances exactly once'):
             continue
-        bi, t = calls[0]
-        ct = strip(b.call_term(t, (bi, None)))
-        fa, ta = strip(ct[2]), strip(ct[3])
-        if name == 'update_range':
+        else:
+            bi, t = calls[0]
+            ct = strip(b.call_term(t, (bi, None)))
+            fa, ta = strip(ct[2]), strip(ct[3])
+        if delegated is not None:
+            pass
+        elif name == 'update_range':
             stores = {}
             for i, j, st in b.stmts():
                 lhs = st['lhs']
@@ -291,9 +306,10 @@ def _glue(ctx, prog, cc, ib):
         else:
             ret = strip(b.return_term())
             fields = dict(zip([f['name'] for f in prog.adts['constraints::Constraints']['variants'][0]['fields']], [strip(x) for x in ret[2:]])) if isinstance(ret, tuple) and ret[0] == 'agg' else {}
-        ok = fields.get('from') == fa and fields.get('to') == ta and fields.get('centers') == ('fld', ct, '0') and fields.get('tolerances') == ('fld', ct, '1')
-        ctx.check(ok, 'R07.3', name + '/stores', b.where(bi), b.path, 'from/to/centers/tolerances must be the arguments and results of one centre computation',
-                  found={k: show(v, maxdepth=3) for k, v in fields.items()})
+        if delegated is None:
+            ok = fields.get('from') == fa and fields.get('to') == ta and fields.get('centers') == ('fld', ct, '0') and fields.get('tolerances') == ('fld', ct, '1')
+            ctx.check(ok, 'R07.3', name + '/stores', b.where(bi), b.path, 'from/to/centers/tolerances must be the arguments and results of one centre computation',
+                      found={k: show(v, maxdepth=3) for k, v in fields.items()})
         if name == 'from_degrees':
             ok = True
             for arr, which in ((fa, 'start'), (ta, 'end')):
